@@ -2,7 +2,11 @@
 
 From scrapli/decorators.py (AST): FUNC_TIMEOUT_MESSAGE_MAP, the default message of
 _get_timeout_message, the class-name tuple of the `cls_name in (...)` test inside the sync `decorate`
-of timeout_wrapper, and the shape of that test (which disjuncts exist).  From scrapli/settings.py:
+of timeout_wrapper, and the other disjuncts of that test as source text (pinned by a Lean theorem); two AST-shape flags of
+the signal branch (restoresTimer, epilogueGuarded); the list of task-spawning call sites in the async classes.
+NOT read from the source, hand-written in ScrapliModel/Timeout.lean and tied only by the selection rig, the timed
+correspondence runs and the mutation self-test: `if not timeout` first, the try/finally of the signal branch, the pool
+`with` (= join) of the thread branch, `wait_for` of the asyncio branch.  From scrapli/settings.py:
 the default of Settings.NO_TERMINATE_ON_TIMEOUT.  From every module under scrapli/: which methods of
 which classes carry @timeout_wrapper (sync and async)."""
 import ast
@@ -76,6 +80,62 @@ def selection(tree):
     return names
 
 
+def selection_disjuncts(tree):
+    """source text of the operands of the mechanism test other than the class-name test, sorted"""
+    tw = _func(tree, "timeout_wrapper")
+    dec = [n for n in ast.walk(tw) if isinstance(n, ast.FunctionDef) and n.name == "decorate"][0]
+    for n in ast.walk(dec):
+        if isinstance(n, ast.If) and isinstance(n.test, ast.BoolOp) and isinstance(n.test.op, ast.Or):
+            ops = n.test.values
+            if any(isinstance(o, ast.Compare) and isinstance(o.left, ast.Name) and o.left.id == "cls_name" for o in ops):
+                return sorted(ast.unparse(o) for o in ops
+                              if not (isinstance(o, ast.Compare) and isinstance(o.left, ast.Name) and o.left.id == "cls_name"))
+    raise TranslateError(f"{DEC}: the mechanism test is no longer `cls_name in (...) or ... or ...`")
+
+
+def restores_timer(tree):
+    """does the signal branch put a previously armed ITIMER_REAL back: the return value of a `signal.setitimer(...)`
+    call is kept, and the `finally` of the same function calls setitimer with a delay that is not the constant 0"""
+    tw = _func(tree, "timeout_wrapper")
+    dec = [n for n in ast.walk(tw) if isinstance(n, ast.FunctionDef) and n.name == "decorate"][0]
+
+    def is_setitimer(n):
+        return isinstance(n, ast.Call) and isinstance(n.func, ast.Attribute) and n.func.attr == "setitimer"
+    kept = any(isinstance(n, (ast.Assign, ast.AnnAssign)) and n.value is not None and is_setitimer(n.value) for n in ast.walk(dec))
+    rearm = False
+    for t in ast.walk(dec):
+        if isinstance(t, ast.Try):
+            for st in t.finalbody:
+                for n in ast.walk(st):
+                    if is_setitimer(n) and len(n.args) >= 2 and not (isinstance(n.args[1], ast.Constant) and n.args[1].value == 0):
+                        rearm = True
+    # the time left must be computed: some subtraction inside that finally (previous delay minus elapsed); the
+    # arithmetic itself is tied by the timed runs with a user alarm armed (remaining time compared, +30 ms)
+    sub = any(isinstance(n, ast.BinOp) and isinstance(n.op, ast.Sub) for t in ast.walk(dec) if isinstance(t, ast.Try)
+              for st in t.finalbody for n in ast.walk(st))
+    if kept and rearm and not sub:
+        raise TranslateError(f"{DEC}: the previous timer is re-armed but no remaining time is computed in the finally")
+    return kept and rearm
+
+
+def epilogue_guarded(tree):
+    """is the handler restore protected against an alarm that raises inside the disarming `finally`: the
+    `signal.signal(...)` restore sits in the finalbody of a Try whose body contains another Try with a finalbody
+    (the inner one disarms)"""
+    tw = _func(tree, "timeout_wrapper")
+    dec = [n for n in ast.walk(tw) if isinstance(n, ast.FunctionDef) and n.name == "decorate"][0]
+
+    def calls(nodes, attr):
+        return any(isinstance(n, ast.Call) and isinstance(n.func, ast.Attribute) and n.func.attr == attr
+                   for st in nodes for n in ast.walk(st))
+    restores = [t for t in ast.walk(dec) if isinstance(t, ast.Try) and calls(t.finalbody, "signal")]
+    if len(restores) != 1:
+        raise TranslateError(f"{DEC}: expected exactly one try/finally restoring the SIGALRM handler in the sync decorate, found {len(restores)}")
+    outer = restores[0]
+    inner = [t for st in outer.body for t in ast.walk(st) if isinstance(t, ast.Try) and t.finalbody]
+    return any(calls(t.finalbody, "setitimer") for t in inner)
+
+
 def no_terminate_default():
     rel = "scrapli/settings.py"
     for n in ast.walk(_parse(rel)):
@@ -121,29 +181,38 @@ def async_spawn_sites(dec):
     `asyncio.wait_for` is the one primitive that cancels and awaits what it started: not listed."""
     classes = {c for c, _, a in dec if a}
     out = []
+
+    def scan(owner, f):
+        for n in ast.walk(f):
+            if isinstance(n, ast.Call):
+                fn = n.func
+                nm = fn.attr if isinstance(fn, ast.Attribute) else fn.id if isinstance(fn, ast.Name) else None
+                base = fn.value if isinstance(fn, ast.Attribute) else None
+                if nm not in SPAWNERS:
+                    continue
+                # `.wait()` is also a method of events/processes: only asyncio.wait / bare wait; every other name on
+                # ANY receiver (self.loop.create_task, asyncio.get_event_loop().create_task, …)
+                if nm == "wait" and not (base is None or (isinstance(base, ast.Name) and base.id == "asyncio")):
+                    continue
+                out.append((owner, f.name, nm))
     for p in sorted((REPO / "scrapli").rglob("*.py")):
         tree = ast.parse(p.read_text())
-        for c in ast.walk(tree):
-            if not (isinstance(c, ast.ClassDef) and c.name in classes):
-                continue
-            for f in c.body:
-                if not isinstance(f, (ast.FunctionDef, ast.AsyncFunctionDef)):
-                    continue
-                for n in ast.walk(f):
-                    if isinstance(n, ast.Call):
-                        fn = n.func
-                        nm = fn.attr if isinstance(fn, ast.Attribute) else fn.id if isinstance(fn, ast.Name) else None
-                        base = fn.value if isinstance(fn, ast.Attribute) else None
-                        if nm in SPAWNERS and (base is None or (isinstance(base, ast.Name) and base.id in ("asyncio", "loop"))
-                                               or (isinstance(base, ast.Call))):
-                            out.append((c.name, f.name, nm))
+        if not any(isinstance(c, ast.ClassDef) and c.name in classes for c in ast.walk(tree)):
+            continue
+        for c in tree.body:      # the classes, and the module-level helpers of the same modules
+            if isinstance(c, ast.ClassDef) and c.name in classes:
+                for f in c.body:
+                    if isinstance(f, (ast.FunctionDef, ast.AsyncFunctionDef)):
+                        scan(c.name, f)
+            elif isinstance(c, (ast.FunctionDef, ast.AsyncFunctionDef)):
+                scan(p.stem, c)
     return sorted(out)
 
 
 def tables():
     tree = _parse(DEC)
-    return {"messageMap": message_map(tree), "defaultMessage": default_message(tree), "threadClassNames": selection(tree),
-            "noTerminateDefault": no_terminate_default(), "decorated": (dec := decorated()), "asyncSpawnSites": async_spawn_sites(dec)}
+    return {"messageMap": message_map(tree), "defaultMessage": default_message(tree), "threadClassNames": selection(tree), "selectDisjuncts": selection_disjuncts(tree),
+            "noTerminateDefault": no_terminate_default(), "restoresTimer": restores_timer(tree), "epilogueGuarded": epilogue_guarded(tree), "decorated": (dec := decorated()), "asyncSpawnSites": async_spawn_sites(dec)}
 
 
 def generate():
@@ -153,10 +222,18 @@ def generate():
     b += "namespace Scrapli.Gen.Timeout\n"
     b += "/-- `cls_name in (...)` in the sync `decorate`: transport class names that select the worker-thread mechanism -/\n"
     b += "def threadClassNames : List String := [" + ", ".join(_lstr(x) for x in t["threadClassNames"]) + "]\n"
+    b += "/-- the other operands of that `or` test, as source text (sorted) -/\n"
+    b += "def selectDisjuncts : List String := [" + ", ".join(_lstr(x) for x in t["selectDisjuncts"]) + "]\n"
     b += "/-- FUNC_TIMEOUT_MESSAGE_MAP -/\n"
     b += "def messageMap : List (String × String) := [\n" + ",\n".join(f"  ({_lstr(k)}, {_lstr(v)})" for k, v in t["messageMap"]) + "]\n"
     b += f"def defaultMessage : String := {_lstr(t['defaultMessage'])}\n"
     b += f"/-- Settings.NO_TERMINATE_ON_TIMEOUT as shipped -/\ndef noTerminateDefault : Bool := {'true' if t['noTerminateDefault'] else 'false'}\n"
+    b += ("/-- signal branch of timeout_wrapper: is an ITIMER_REAL that was armed before the call re-armed (with the time it\n"
+          "    has left) in the `finally` — read off the AST; the behaviour itself is tied by the correspondence runs -/\n")
+    b += f"def restoresTimer : Bool := {'true' if t['restoresTimer'] else 'false'}\n"
+    b += ("/-- signal branch: does the handler restore sit in an outer `finally` that still runs when the alarm raises inside\n"
+          "    the inner, disarming one (AST shape; behaviour tied by the trace-injected race runs of the check) -/\n")
+    b += f"def epilogueGuarded : Bool := {'true' if t['epilogueGuarded'] else 'false'}\n"
     for nm, flag in (("decoratedSync", False), ("decoratedAsync", True)):
         rows = [(c, m) for c, m, a in t["decorated"] if a == flag]
         b += f"/-- (class, method) pairs carrying @timeout_wrapper, {'async def' if flag else 'def'} -/\n"
